@@ -247,6 +247,23 @@ def ref_postfix(start, s):
     return v, p
 
 
+def ref_self_and_mutual(start, s):
+    """p = p '!' | a ; a = p '.' n | n  (leader p: it lies on the self cycle and on the cycle through a):
+    n followed by any sequence of '!' and '.n', folded to the left"""
+    r = _n(s, 0)
+    if r is None:
+        return None
+    v, p = r
+    while p < len(s):
+        if s[p] == '!':
+            v, p = [v, '!'], p + 1
+        elif s[p] == '.' and s[p + 1:p + 2] == 'n':
+            v, p = [v, '.', 'n'], p + 2
+        else:
+            break
+    return v, p
+
+
 def ref_binary_and_postfix(start, s):
     r = _n(s, 0)
     if r is None:
@@ -428,6 +445,10 @@ SCHEMAS = (
     ('postfix', (('e', ch(seq(C('e'), T('!')), C('a'))), ('a', N)), {'e'}, ('e',), 'n!', ref_postfix),
     ('binary-and-postfix', (('e', ch(seq(C('e'), T('+'), C('t')), seq(C('e'), T('!')), C('t'))), ('t', N)), {'e'}, ('e',), 'n+!',
      ref_binary_and_postfix),
+    # a directly left-recursive rule inside a larger mutually recursive component; the rule names are chosen so that the
+    # self-recursive member is NOT the alphabetically smallest one of the component
+    ('self-and-mutual', (('p', ch(seq(C('p'), T('!')), C('a'))), ('a', ch(seq(C('p'), T('.'), N), N))), {'p'}, ('p',), 'n!.',
+     ref_self_and_mutual),
     ('application', (('e', ch(seq(C('e'), T('('), C('e'), T(')')), N)),), {'e'}, ('e',), 'n()', ref_application),
     ('both-sides', (('e', ch(seq(C('e'), T('+'), C('e')), N)),), {'e'}, ('e',), 'n+', ref_both_sides),
     ('recursion-in-group', (('e', ch(seq(('group', ch(seq(C('e'), T('+')), seq(C('e'), T('-')))), C('t')), C('t'))), ('t', N)),
